@@ -134,6 +134,9 @@ func (group *LogGroupInfo) GetSubmissionSession() []string {
 	if len(group.LogURLs) == 0 {
 		return make([]string, 0)
 	}
+	if s := simSession(group); s != nil {
+		return s
+	}
 	session := make([]string, 0)
 	// modelling weighted random with exclusion
 
